@@ -21,6 +21,7 @@ Layer 2, geometry (validators on exact rationals): `cornerJac`, `rightHanded`.
 import CBV.Model.Common
 import CBV.Gen.Tables
 import CBV.Model.C11Geo
+import CBV.Gen.TC11
 
 namespace CBV.C11
 
